@@ -1005,7 +1005,11 @@ class ChannelFactory:
             return channel
 
     def channels(self) -> list[Channel]:
-        return self._list(self._channels.values())
+        # valuerefs() snapshots the table in one step; iterating values() can
+        # raise "dictionary changed size during iteration" while another
+        # thread (un)registers a channel, e.g. the receiver thread at EOF.
+        channels = [ref() for ref in self._channels.valuerefs()]
+        return [channel for channel in channels if channel is not None]
 
     #
     # internal methods, called from the receiver thread
